@@ -243,6 +243,10 @@ class Printer:
             return '(' + self.expr(inner[0]) + ')'
         if k == 'SubstNonTypeTemplateParmExpr':
             return self.expr(inner[-1])
+        if k == 'ConstantExpr' and strip_cv(qual(n['type'])) == 'bool' and n.get('value') in ('true', 'false'):
+            # a constant-evaluated condition (`if constexpr`, instantiated variable templates such as is_arithmetic_v<T>):
+            # print the value clang computed for this instantiation
+            return '1' if n['value'] == 'true' else '0'
         if k in TRANSPARENT:
             return self.expr(inner[0])
         if k == 'IntegerLiteral':
